@@ -246,6 +246,8 @@ type SweepOpts struct {
 	MaxWorlds  int  // per model cap (0 = none); hitting it marks the run non-exhaustive
 	FreshStore bool // one store per world instead of write/delete on one store
 	FullPool   bool
+	// LeftFilter, when set, restricts the leftover tuples (Leftover) to those it accepts
+	LeftFilter func(m *ref.Model, t ref.Tuple) bool
 }
 
 // Sweep enumerates, for every model, every tuple subset of size <= K of the model's pool, writes it to
@@ -259,9 +261,11 @@ func Sweep(r *core.Report, models []*ref.Model, o SweepOpts, fn func(e *Env, w *
 	type job struct{ mi, part, parts int }
 	var jobs []job
 	for mi, m := range models {
-		n := len(ref.RelevantPool(m, o.U))
+		var n int
 		if o.FullPool {
 			n = len(ref.Pool(m, o.U))
+		} else {
+			n = len(ref.RelevantPool(m, o.U))
 		}
 		parts := 1
 		if o.MaxWorlds == 0 && o.K >= 2 {
@@ -295,9 +299,11 @@ func Sweep(r *core.Report, models []*ref.Model, o SweepOpts, fn func(e *Env, w *
 				r.Set(fmt.Sprintf("slow_model/%s/part%d-of-%d", m.Signature(), jb.part, jb.parts), d.Seconds())
 			}
 		}()
-		pool := ref.RelevantPool(m, o.U)
+		var pool []ref.Tuple
 		if o.FullPool {
 			pool = ref.Pool(m, o.U)
+		} else {
+			pool = ref.RelevantPool(m, o.U)
 		}
 		var lefts []*ref.Tuple
 		if o.Leftover {
@@ -313,7 +319,7 @@ func Sweep(r *core.Report, models []*ref.Model, o SweepOpts, fn func(e *Env, w *
 			}
 			for _, t := range ref.Pool(pm, o.U) {
 				t := t
-				if !m.ValidTuple(t) {
+				if !m.ValidTuple(t) && (o.LeftFilter == nil || o.LeftFilter(m, t)) {
 					lefts = append(lefts, &t)
 				}
 			}
